@@ -1,7 +1,7 @@
 /-
 C13 (source tie) — the hand-written model of `Role::is_allowed` (`KM.Http.Role.isAllowed`,
 Http/Role.lean) equals the definition that the translator `pure_fns` regenerates from
-`/repo/src/daemon/http/auth/roles.rs` on every run (`Generated/PureFns.lean`,
+`/repo/src/daemon/http/auth/roles.rs` on every run (`Generated/PureFnsC13.lean`,
 `KM.Gen.Role.is_allowed`).
 
 `role_semantics`, `served_iff` and `listing_filtered` (Props/C13.lean) are about `Role.isAllowed`:
@@ -16,7 +16,7 @@ its body.)
 Abstracted in the generated definition and instantiated here: `PermissionSet::has` ↦ `KM.Http.has`,
 `self.resources.get` ↦ `Role.entry` (first entry of the handle in the association list).
 -/
-import KrillModel.Generated.PureFns
+import KrillModel.Generated.PureFnsC13
 import KrillModel.Http.Role
 namespace KM.Props.C13Src
 open KM.Http KM.Generated
